@@ -16,7 +16,7 @@ META = {
         "compile-fail witness in the thorough tier). R3: the all-years list is sorted ascending by period start year. "
         "R4: the matcher receives the conversion of all transactions (no filter upstream); the year filter is applied "
         "to its results; holdings come from the unfiltered pools. R5: the single-year and all-years builders fill every "
-        "TaxYearSummary field from the same producers. Does not decide equality of the sliced and the all-years report. R6: constant year-like ranges in the front-end crates contain 1900..=2100. R7 (filing keys): wherever library code files an element into a map keyed by the tax year (u16 key), the key is on every path the start year of TaxPeriod::from_date(<a date of the element>), directly or through a helper returning exactly that; a key chosen between that and a cached period is reported."),
+        "TaxYearSummary field from the same producers. Does not decide equality of the sliced and the all-years report. R6: constant year-like ranges in the front-end crates contain 1900..=2100. R7 (filing keys): wherever library code files an element into a map keyed by the tax year (u16 key), the key is on every path the start year of TaxPeriod::from_date(<a date of the element>), directly or through a helper returning exactly that; a key chosen between that and a cached period is reported. R5 also: the summary builders never turn a year they cannot build into an absence (no workspace Result discarded by ok/unwrap_or/… or flattened away by flat_map/flatten; shared with C15-R7)."),
     "trusted_base": ["chrono NaiveDate ordering is calendar order; from_ymd_opt(y, m, d) denotes that date",
                      "rustc MIR + callee resolution"],
 }
